@@ -106,13 +106,24 @@ def gen_case(rng):
         files[f"{d}f{i}{ext}"] = gen_text(rng, a, b, ext)
     if rng.random() < 0.3:
         files["plain.txt"] = f"not a zorg file [[{a}]]\n"
-    return {"src": a + (".zo" if src_ext else ""), "dst": b + (".zo" if rng.random() < 0.3 else ""), "files": files, "mkdst": rng.random() < 0.93}
+    return {"src": a + (".zo" if src_ext else ""), "dst": b + (".zo" if rng.random() < 0.3 else ""), "files": files, "mkdst": rng.random() < 0.93,
+            "symlink": rng.random() < 0.15}
 
 
 def run_impl(ctx, case, zdir: Path, cfg: Path):
-    if zdir.exists():
+    real = zdir.parent / "real_notes"
+    if zdir.is_symlink():
+        zdir.unlink()
+    elif zdir.exists():
         shutil.rmtree(zdir)
-    zdir.mkdir(parents=True)
+    if real.exists():
+        shutil.rmtree(real)
+    if case.get("symlink"):
+        # the notes directory is reached through a symbolic link and the page names are given as absolute paths through it
+        real.mkdir(parents=True)
+        zdir.symlink_to(real, target_is_directory=True)
+    else:
+        zdir.mkdir(parents=True)
     for rel, txt in case["files"].items():
         p = zdir / rel
         p.parent.mkdir(parents=True, exist_ok=True)
@@ -121,7 +132,8 @@ def run_impl(ctx, case, zdir: Path, cfg: Path):
     if case["mkdst"]:
         (zdir / dst).parent.mkdir(parents=True, exist_ok=True)
     try:
-        rc, out, err = Z.zorg_main(zdir, "file", "rename", case["src"], case["dst"], config=cfg)
+        a1, a2 = (str(zdir / case["src"]), str(zdir / case["dst"])) if case.get("symlink") else (case["src"], case["dst"])
+        rc, out, err = Z.zorg_main(zdir, "file", "rename", a1, a2, config=cfg)
         exc = None
     except Exception as e:  # noqa
         rc, exc = None, type(e).__name__
